@@ -45,6 +45,7 @@ GATES = {
             "verdict_lines", "verdict_errors_forwarded", "out_default_body"],
     "C14": ["build_rejected_mixed_mode", "build_rejected_empty_stub", "built", "out_return"],
     "C11": [],
+    "C12": [],
     "C15": [],
     "C16": [],
     "C19": [],
@@ -176,6 +177,8 @@ def run(ctx):
         for variant, count in dist.items():
             if config != "std" and variant in ("ThreadIgnored",):
                 continue
+            if config == "nostd-nolock" and variant in ("SingleUseRepeats",):
+                continue  # single-use returns cannot even be constructed without a lock implementation
             ctx.require(count > 0, f"workload cannot tell Spec-M from its wrong variant {variant} ({config})")
         if ctx.prop == "C07" and config == "std":
             cells = sorted(k for k in stats if k.startswith("cell_"))
@@ -195,7 +198,7 @@ def run(ctx):
             ctx.notes.append(f"{config}: discrepancies attributed to other properties (not reported here): {others}")
 
     concurrent = None
-    if ctx.prop in ("C08", "C02", "C03", "C04"):
+    if ctx.prop in ("C08", "C02", "C03", "C04", "C18"):
         # the concurrent facet: several threads panicking / matching at once (engine C workloads)
         from . import engine_c
         b = engine_c.C10_BUDGET[ctx.tier]
